@@ -16,6 +16,8 @@ from vlib import common as C, e2e, sysrun as S
 
 PROP = "C02"
 THEOREMS = ["GitAi.Sys.blame_matches_ghost", "GitAi.Sys.rewrite_preserves_attribution", "GitAi.Sys.replay_credit_from_source",
+            "GitAi.Sys.replay_never_invents", "GitAi.Sys.resolution_line_credit_partial", "GitAi.Sys.witness_agent_resolution_line_lost",
+            "GitAi.Sys.regression_block_of_several_authors", "GitAi.Sys.regression_line_rewritten_later",
             "GitAi.Sys.aborted_is_identity", "GitAi.Sys.stash_roundtrip_partial", "GitAi.Sys.regression_stash_upstream_above",
             "GitAi.Sys.rspecRun_st", "GitAi.RJ.fresh_operation_uses_its_own_head", "GitAi.RJ.continuation_keeps_the_open_start",
             "GitAi.RJ.hasActiveStart_iff", "GitAi.RJ.extracted_decisions_sound"]
@@ -37,6 +39,7 @@ class Sc:
         self.tainted_ws = set()  # texts re-touched whitespace-only after being committed as AI (known finding)
         self.overlap = False     # a later commit of the rewritten range touches a file an earlier one touched
         self.human_replaced = set()   # texts a person wrote in place of an existing line
+        self.resolution_ai = set()    # texts an agent typed (checkpoint reported) while a rebase was stopped at a conflict
         # --- script for the Lean model (Model/Rewrite.lean): what was done, with git's own results as inputs
         self.mops = []           # global op list; per-file payloads are dicts path -> value
         self.ids = {}            # norm(text) -> line id
@@ -225,6 +228,7 @@ class Sc:
                     self.failures.append((sig, {"where": where, "path": p, "line": i, "text": t, "want": g, "have": have,
                                                 "block_authors": sorted(authors), "mixed_block": len(authors) > 1,
                                                 "rewritten_later_by_have": bool(have) and self.later_version_by(t, have),
+                                                "typed_by_agent_during_resolution": norm(t) in self.resolution_ai,
                                                 "log": self.log[-10:]}))
 
     def later_version_by(self, text, have_hash):
@@ -347,19 +351,26 @@ class Sc:
                 self.model_ok = False
             self.check_tip("after rebase --skip")
         else:
-            self.model_ok = False      # conflict resolution inside a stopped rebase: not in the model
+            # conflict resolution inside the stopped rebase: a person or an agent (checkpoint reported)
+            # removes the markers and types one more line; model op `typed`, then the replay
             who = rng.pick(["human", "s2"])
             ls = [l for l in self.lines(p) if not l.startswith(("<<<<<<<", "=======", ">>>>>>>", "|||||||"))]
             if who != "human":
                 self.r.human_checkpoint([p])
-            ls.insert(len(ls) // 2, self.fresh(who))
+            t = self.fresh(who)
+            ls.insert(len(ls) // 2, t)
             self.write(p, ls)
             if who != "human":
                 self.r.ai_checkpoint(who, [p], tool=S.TOOL)
+                self.resolution_ai.add(norm(t))
+            self.mrec("typed", s=int(who[1:]) if who != "human" else 0, ids=[self.lid(t)])
             self.git("add", "-A")
             rc = self.git("rebase", "--continue")
             if rc != 0:
                 self.git("rebase", "--abort")
+                self.mrec("aborted")
+            else:
+                self.mrec("rebase", onto="main", drop=2, news=self.news_since("main"))
             self.check_tip("after rebase --continue")
         return f"rebase-conflict:{action}"
 
@@ -384,7 +395,8 @@ class Sc:
             self.git("cherry-pick", "--abort")
             self.mrec("aborted")
         elif mode != "n":
-            self.mrec("cherryPick", src="feature", news=self.news_since(orig))
+            # `skip`: commits of the source branch after the last picked one (the replay reads the state at the last picked commit)
+            self.mrec("cherryPick", src="feature", skip=(len(shas) - 1 if mode == "single" else 0), news=self.news_since(orig))
         self.check_tip("after cherry-pick")
         return f"cherry-pick:{mode}"
 
@@ -567,6 +579,76 @@ class Sc:
         self.check_tip(f"after {how} + commit")
         return f"switch-carry:{how}"
 
+    # ------------------------------------------------------------ fixed regression scenarios (run first)
+    def put(self, who, p, pos, texts=None, replace=None):
+        """explicit edit: insert `texts` at `pos`, or replace line `pos` by the text `replace`"""
+        ls = self.lines(p)
+        if who != "human":
+            self.r.human_checkpoint([p])
+        new = texts if texts is not None else [replace]
+        for t in new:
+            self.ghost[norm(t)] = None if who == "human" else who
+        if texts is not None:
+            ls[pos:pos] = texts
+        else:
+            ls[pos] = replace
+        self.write(p, ls)
+        if who != "human":
+            self.r.ai_checkpoint(who, [p], tool=S.TOOL)
+        self.mfiles.add(p)
+        self.mrec("human" if who == "human" else "ai", path=p, s=int(who[1:]) if who != "human" else 0, ys=[self.lid(l) for l in ls])
+        self.log.append({"op": "put", "who": who, "path": p, "pos": pos, "texts": new})
+
+    def t_fixed(self, which):
+        """witnesses of the two repaired defects of the content-replay path (3d512cdb, 5c3b3e4a)"""
+        self.base(nfiles=1)
+        p = self.files[0]
+        self.upmode = "above"
+        self.git("switch", "-q", "-c", "feature")
+        if which.startswith("mixed-block"):
+            self.put("s1", p, 4, ["X1 ai one"]); self.put("human", p, 5, ["X2 person"]); self.put("s2", p, 6, ["X3 ai two"])
+            shas = [self.commit("feat mixed")]
+        else:
+            author1 = "human" if which.endswith("-human") else "s2"
+            base_line = self.lines(p)[4]
+            self.put(author1, p, 4, replace=base_line + " m1"); self.put("s2", p, 6, ["X4 ai"])
+            shas = [self.commit("feat 1")]
+            self.put("s1", p, 4, replace=base_line + " m1 m2")
+            shas.append(self.commit("feat 2"))
+        self.git("switch", "-q", "main")
+        self.put("human", p, 0, ["U1 upstream"]); self.commit("up")
+        if which == "mixed-block-cherry-pick":
+            orig = self.r.head()
+            if self.git("cherry-pick", shas[0]) == 0:
+                self.mrec("cherryPick", src="feature", skip=0, news=self.news_since(orig))
+            else:
+                self.model_ok = False
+            self.check_tip("after cherry-pick")
+            return which
+        self.git("switch", "-q", "feature")
+        if which == "mixed-block-rebase":
+            rc = self.git("rebase", "main"); n = 1
+        else:
+            script = os.path.join(self.env.root, "seq.py")
+            open(script, "w").write(SEQ_EDITOR)
+            mode = "drop" if "drop" in which else "keep"
+            rc = self.git("rebase", "-i", "main", env={"GIT_SEQUENCE_EDITOR": f"python3 {script} {mode}"}); n = 2
+        if rc == 0:
+            self.mrec("rebase", onto="main", drop=n, news=self.news_since("main"))
+        else:
+            self.model_ok = False
+        self.check_tip("after rebase")
+        if which.startswith("rewritten-later-keep"):
+            self.r.plain_git("checkout", "-q", "HEAD~1")       # the rebased EARLIER commit
+            self.check_tip_plain("at the rebased earlier commit")
+        return which
+
+    def check_tip_plain(self, where):
+        """ghost oracle only (no model observation): used at a detached older commit"""
+        n_obs, n_ops = len(self.obs), len(self.mops)
+        self.check_tip(where)
+        del self.obs[n_obs:]; del self.mops[n_ops:]
+
     def t_noop_ops(self):
         """failing / dry-run operations must leave notes and pending attribution untouched"""
         self.base()
@@ -606,7 +688,9 @@ elif mode == "drop" and len(picks) >= 2:
 open(path, "w").write("\\n".join(lines))
 '''
 
-TEMPLATES = [
+FIXED = ["mixed-block-rebase", "mixed-block-cherry-pick", "rewritten-later-drop", "rewritten-later-keep", "rewritten-later-drop-human"]
+
+TEMPLATES = [("fixed:" + w, (lambda w: lambda s: s.t_fixed(w))(w)) for w in FIXED] + [
     ("rebase", lambda s: s.t_rebase()), ("rebase-onto", lambda s: s.t_rebase(onto=True)),
     ("rebase-i-reorder", lambda s: s.t_rebase(interactive="reorder")), ("rebase-i-squash", lambda s: s.t_rebase(interactive="squash")),
     ("rebase-i-fixup", lambda s: s.t_rebase(interactive="fixup")), ("rebase-i-drop", lambda s: s.t_rebase(interactive="drop")),
@@ -632,6 +716,9 @@ def family(tname, sc):
     touched ("upstream-other-file"); otherwise the content-replay path runs, which carries known
     findings."""
     up = getattr(sc, "upmode", None)
+    if tname.startswith("fixed:"):
+        return "cherry-pick[upstream-touches-tracked-file]" if "cherry-pick" in tname else (
+            "rebase[upstream-touches-tracked-file]" if tname.endswith("mixed-block-rebase") else "rebase-interactive")
     if tname.startswith("conflict"):
         return "rebase-" + tname
     if tname.startswith("rebase-after"):
@@ -651,13 +738,19 @@ REPLAY_FAMILIES = ("rebase[upstream-touches-tracked-file]", "rebase-conflict-con
 
 
 def full_sig(fam, sig, d):
-    """family:kind — and, for the content-replay families, whether the line sits in a block of added lines
-    written by more than one author (the recorded finding is about exactly those blocks)"""
+    """family:kind, refined for the two recorded findings of the content-replay path:
+    * a line an agent typed (checkpoint reported) while the rebase was stopped at a conflict comes out human;
+    * a person's line that a later commit of the rewritten range (an agent's) changed again is credited to
+      that later session in the rebased version of the earlier commit (tokens of the final state survive
+      the diff chain).
+    Blocks of several authors and AI lines rewritten later in the range were repaired in /repo
+    (3d512cdb, 5c3b3e4a): no classifier for them any more, they are reported as violations."""
     if sig == "human-tweak-of-ai-line-still-ai":
         return sig
-    if fam.split("+tail-")[0] in REPLAY_FAMILIES and d.get("mixed_block"):
-        return f"{fam}:{sig}:in-block-of-several-authors"
-    if fam.split("+tail-")[0] in REPLAY_FAMILIES and d.get("rewritten_later_by_have"):
+    base = fam.split("+tail-")[0]
+    if base == "rebase-conflict-continue" and sig == "surviving-ai-line-lost" and d.get("typed_by_agent_during_resolution"):
+        return f"{fam}:{sig}:typed-by-agent-during-resolution"
+    if base in REPLAY_FAMILIES and sig == "human-line-became-ai" and d.get("rewritten_later_by_have"):
         return f"{fam}:{sig}:line-rewritten-by-a-later-commit-of-the-range"
     return f"{fam}:{sig}"
 
@@ -671,7 +764,7 @@ def run_one(args, _attempt=0):
             tag = fn(sc)
             fam = family(tname, sc)
             n_first = len(sc.failures)
-            if not sc.failures and tname not in ("noop", "switch-carry", "switch-c", "checkout-m", "cherry-pick-n") and sc.rng.chance(1, 2):
+            if not sc.failures and not tname.startswith("fixed:") and tname not in ("noop", "switch-carry", "switch-c", "checkout-m", "cherry-pick-n") and sc.rng.chance(1, 2):
                 t = sc.tail()
                 if t:
                     tag = f"{tag}+{t}"
@@ -736,7 +829,10 @@ def model_phase(res, jobs, outs):
             nbad += 1
             first = first or {"seed": seed, "template": tname, "path": p, "driver": r}
             continue
-        explained = any(not sig.startswith("stash") for sig, _ in failures)
+        # token-level findings the line-identity model cannot see (tokens of an older version of a line keep
+        # their author) and the unsupported `cherry-pick -n`; everything else must agree with the model
+        explained = any(sig == "human-tweak-of-ai-line-still-ai" or sig.endswith(":line-rewritten-by-a-later-commit-of-the-range")
+                        or sig.startswith("cherry-pick-n") for sig, _ in failures)
         for j, real in enumerate(md["obs"]):
             if p not in real or j >= len(mobs):
                 continue
@@ -756,8 +852,13 @@ def model_phase(res, jobs, outs):
         res.broken_tie("correspondence:rewrite-e2e", {"disagreements": nbad, "of": ncmp, "first": first})
 
 
-def phase(res, seeds, threads=16):
-    jobs = [(s, TEMPLATES[i % len(TEMPLATES)][0]) for i, s in enumerate(seeds)]
+RANDOM_TEMPLATES = [t for t in TEMPLATES if not t[0].startswith("fixed:")]
+
+
+def phase(res, seeds, threads=16, fixed=False):
+    jobs = [(s, RANDOM_TEMPLATES[i % len(RANDOM_TEMPLATES)][0]) for i, s in enumerate(seeds)]
+    if fixed:
+        jobs = [(seeds[0], "fixed:" + w) for w in FIXED] + jobs
     with concurrent.futures.ThreadPoolExecutor(threads) as ex:
         outs = list(ex.map(run_one, jobs))
     model_phase(res, jobs, outs)
@@ -775,11 +876,11 @@ def phase(res, seeds, threads=16):
 
 def run(tier, seed):
     res = C.Result(PROP, tier, seed)
-    res.rule = ("end-to-end: 25 scenario templates (rebase plain/--onto/-i reorder|squash|fixup|drop, conflict continue|abort|skip, "
+    res.rule = ("end-to-end: 5 fixed regression scenarios of the content-replay path (block of several authors through rebase / cherry-pick; a line rewritten by a later commit of the range, kept / dropped / written by a person) run first, then 25 scenario templates (rebase plain/--onto/-i reorder|squash|fixup|drop, conflict continue|abort|skip, "
                 "cherry-pick single|range|-n, amend, merge --squash, reset --soft|--mixed + recommit, stash/pop with upstream "
                 "changes, switch/checkout -m carrying work, failing and dry-run operations, a real rebase after a no-op or aborted one) with randomised edits, sessions and "
                 "upstream change positions (other file, above, below, both); non-trivial = more than 4 executed steps")
-    res.rule += ("; correspondence: for every template the model has (all but conflict resolution inside a stopped rebase and cherry-pick -n) the Lean model Model/Rewrite.lean is fed the runner's steps and the file contents "
+    res.rule += ("; correspondence: for every template the model has (all but cherry-pick -n; conflict continuation included: the lines typed during the resolution are a `typed` step before the replay) the Lean model Model/Rewrite.lean is fed the runner's steps and the file contents "
                  "git produced for rewritten commits, and its predicted blame is compared with the binary's at every observation point")
     res.trusted = ["Lean 4.33 kernel", "extract/rewrite_hooks.py (textual extraction of the start/continue decision)",
                    "vlib/props/c02.py text-identity ghost tracking and model-script recording", "real git 2.39 (its rebase / "
@@ -802,7 +903,7 @@ def run(tier, seed):
     if os.path.exists(os.path.join(C.LEAN, "GitAiModel", "Props", "C02.lean")):
         C.phase_proofs(res, PROP, THEOREMS)
     n = 75 if tier == "quick" else 1500
-    phase(res, [seed * 100000 + i for i in range(n)])
+    phase(res, [seed * 100000 + i for i in range(n)], fixed=True)
     if res.broken and not res.violations:
         # a proof obligation or the correspondence no longer checks: look for a concrete failing history
         phase(res, [seed * 100000 + 50000 + i for i in range(230)])
